@@ -456,9 +456,69 @@ def judge_exh(ctx, label, exe, stride):
     return d
 
 
+# ------------------------------------------------------------------ Tie A: regenerate the model text from the sources
+GEN_NEEDED = ["clamp__f_f_f", "clamp__i_i_i", "cvt_uint32__f", "cvt_uint32__v4f", "deg2rad__f", "divRoundUp__i_i",
+              "divRoundUp__l_l", "divRoundUp__u_u", "divRoundUp__ul_ul", "lerp__f_f_f", "linear_to_srgb__f",
+              "linear_to_srgba8__v4f", "madd__f_f_f", "rcp__f", "rcp_safe__f", "rsqrt__f", "sign__f",
+              "pcg_detail_xsh_rr_mixin_output__ul", "pcg_extras_rotr__u_uc", "pcg_detail_specific_stream_mk__ul",
+              "pcg_detail_default_multiplier_multiplier___4"]
+
+
+def regenerate(ctx):
+    """gen/GenMath.v (tools/cxx2coq, NO_SIMD forms + pcg32 pieces) and gen/SimdFacts.v (SIMD expression trees, deg2rad
+    literal) are rewritten from ctx.repo on every run; PropertiesGen.v proves them equal to the hand-written model."""
+    import shutil
+    gdir = os.path.join(ctx.coqdir, "gen")
+    os.makedirs(gdir, exist_ok=True)
+    ctx.include_dir()
+    pre = open(os.path.join(ctx.coqdir, "pregen.sh")).read()
+    only = re.search(r"^ONLY='(.*)'$", pre, re.M).group(1)
+    tool = os.path.join(ctx.verif, "tools", "cxx2coq", "cxx2coq.py")
+    tu = os.path.join(ctx.verif, "tools", "cxx2coq", "inst", "scalar.cpp")
+    changed = []
+    tmp = os.path.join(ctx.build, "GenMath.new.v")
+    rc, o = vlib.sh(["python3", tool, tu, tmp, "--repo", ctx.repo, "-D", "RKCOMMON_NO_SIMD", "--filter2", "pcg_", "--only", only,
+                     "--json", os.path.join(ctx.build, "scalar.json")], timeout=600)
+    if rc != 0 or not os.path.exists(tmp):
+        ctx.log("cxx2coq failed:\n" + o[-2000:])
+        ctx.broken.append("regeneration of gen/GenMath.v from the working tree (cxx2coq/clang failed)")
+        return
+    txt = open(tmp).read()
+    defs = set(re.findall(r"^Definition (\S+)", txt, re.M))
+    missing = [d for d in GEN_NEEDED if d not in defs]
+    uns = re.findall(r"\(\* UNSUPPORTED (\S+):", txt)
+    ctx.cov["cxx2coq"] = {"translated_definitions": len(defs), "needed": len(GEN_NEEDED), "missing": missing,
+                          "unsupported_in_output": uns}
+    for d in missing:
+        ctx.broken.append("cxx2coq no longer yields %s from the working tree (signature changed or body outside the subset)" % d)
+    gen = os.path.join(gdir, "GenMath.v")
+    if not os.path.exists(gen) or open(gen).read() != txt:
+        changed.append("GenMath.v")
+        shutil.copy(tmp, gen)
+    os.remove(tmp)
+    tmp2 = os.path.join(ctx.build, "SimdFacts.new.v")
+    rc, o = vlib.sh(["python3", os.path.join(ctx.verif, "props", "C07", "simdfacts.py"), ctx.repo, tmp2, gen], timeout=300)
+    if rc != 0 or not os.path.exists(tmp2):
+        ctx.log("simdfacts failed:\n" + o[-2000:])
+        ctx.broken.append("regeneration of gen/SimdFacts.v from the working tree (clang failed)")
+        return
+    txt2 = open(tmp2).read()
+    ctx.cov["simd_facts"] = {"rcp": re.search(r"rcp_simd_ast : sx :=\s*(.*?)\.\n", txt2, re.S).group(1),
+                             "rsqrt": re.search(r"rsqrt_simd_ast : sx :=\s*(.*?)\.\n", txt2, re.S).group(1),
+                             "unrecognised": re.findall(r"outside the recognised intrinsic subset: (.*?) \*\)", txt2)}
+    gen2 = os.path.join(gdir, "SimdFacts.v")
+    if not os.path.exists(gen2) or open(gen2).read() != txt2:
+        changed.append("SimdFacts.v")
+        shutil.copy(tmp2, gen2)
+    os.remove(tmp2)
+    if changed:
+        ctx.log("regenerated text changed (%s): the Tie A obligations of PropertiesGen.v are re-checked against it" % ", ".join(changed))
+
+
 # ------------------------------------------------------------------ main
 def run(ctx):
-    ctx.coq_check(("Properties.v",))
+    regenerate(ctx)
+    ctx.coq_check(("Properties.v", "PropertiesGen.v"))
     model = ctx.extract(snippets=["conv_N.ml", "conv_Z.ml", "conv_nat.ml"])
     common = dict(flags=CXXFLAGS)
     exes = ctx.cxx_many([
@@ -594,6 +654,8 @@ def run(ctx):
         "(float*float and 1/x are exact or innocuously double-rounded in binary64)",
         "case harness harness/C07/harness.cpp (g++ -O1 -ffp-contract=off, ASan+UBSan), generators and python oracles in props/C07/check.py",
         "Flocq 4 IEEE754.Binary/Bits binary32 operations evaluated by vm_compute as the executable model",
+        "Tie A: tools/cxx2coq (clang 14 JSON AST -> Gallina over Common.CxxSem.interp) and props/C07/simdfacts.py (intrinsic expression "
+        "trees of the SIMD branches, deg2rad literal -> float bits by python rounding); the readings Sem.IF32 / CxxSem.IZ / MZ",
         "modelled, not verified: the rcpss/rsqrtss estimate instructions (section variables rcp_est/rsqrt_est with the vendor error bound as "
         "hypotheses, validated exhaustively on this CPU each run), libm powf (monotone by hypothesis; strided sweep), sqrtss/divss correctly rounded",
     ]
